@@ -26,7 +26,7 @@ from checks.c01_generated_model import finish as c01_finish
 from gram import Bin, Env, Eq, Layout, Num, RefError, Var, classify, deps, evaluation_order, interp, render
 from gram.driver import add_stats, run_items
 from gram.family import program_set, show
-from gram.pipeline import _NS, REF_FUNCS, _c_myexp, _myexp, install_user_functions, parse_and_build
+from gram.pipeline import _NS, MY_CON, MY_SYM, REF_FUNCS, _c_myexp, _myexp, install_user_functions, parse_and_build
 from symx.core import Ctx, cur
 from symx.values import F64, SFloat, SInt, fpval
 from symx.zseries import ZSeries
@@ -42,7 +42,7 @@ def _exec_code(code: str, series: Dict[str, Any], t: Any, concrete: bool = False
     obj = _NS()
     for n, s in series.items():
         setattr(obj, '_' + n, s)
-    ns = {'self': obj, 't': t, 'np': np, 'max': max, 'min': min, 'abs': abs, 'myexp': _c_myexp if concrete else _myexp}
+    ns = {'self': obj, 't': t, 'np': np, 'max': max, 'min': min, 'abs': abs, 'myexp': _c_myexp if concrete else _myexp, 'my': MY_CON if concrete else MY_SYM}
     with warnings.catch_warnings():
         warnings.simplefilter('ignore')
         exec(code, ns)  # noqa: S102 - one generated statement
